@@ -7,12 +7,17 @@ import (
 	"encoding/json"
 	"fmt"
 	"math/big"
+	"strings"
 	"sync"
 )
 
 // RSAKey is RSA key material as big-endian byte strings without leading zeros.
 type RSAKey struct {
-	Bits int    `json:"bits"`
+	// Shape names a special material class (2048 bits, e = 65537): p_long / q_long (primes of 1088 and 960 bits),
+	// dp_lz1, dp_lz2, dq_lz1, dq_lz2, qinv_lz1, qinv_lz2 (the CRT value is one / two bytes shorter than its prime),
+	// d_short (d one byte shorter than n). Empty for the ordinary keys, which are looked up by (bits, e).
+	Shape string `json:"shape,omitempty"`
+	Bits  int    `json:"bits"`
 	E    int    `json:"e"`
 	N    string `json:"n"`
 	D    string `json:"d"`
@@ -44,6 +49,10 @@ func RSA(bits, e int) (*RSAKey, error) {
 			}
 		}
 		for _, k := range ks {
+			if k.Shape != "" {
+				rsaCache["shape:"+k.Shape] = k
+				continue
+			}
 			rsaCache[rsaKeyName(k.Bits, k.E)] = k
 		}
 	}
@@ -56,6 +65,30 @@ func RSA(bits, e int) (*RSAKey, error) {
 	}
 	rsaCache[rsaKeyName(bits, e)] = k
 	return k, nil
+}
+
+// RSAShapes lists the special RSA material classes of the embedded table (material class "rsa:<shape>").
+var RSAShapes = []string{"p_long", "q_long", "dp_lz1", "dp_lz2", "dq_lz1", "dq_lz2", "qinv_lz1", "qinv_lz2", "d_short"}
+
+// rsaFor returns the RSA key material for a parameter record and material class: a shape key for class "rsa:<shape>"
+// (only for 2048-bit moduli with e = 65537), the ordinary (bits, e) key otherwise.
+func rsaFor(bits, e int, m Material) (*RSAKey, error) {
+	if strings.HasPrefix(m.Class, "rsa:") {
+		if bits != 2048 || e != 65537 {
+			return nil, fmt.Errorf("keyfactory: RSA shape keys exist for 2048 bits and e = 65537 only")
+		}
+		if _, err := RSA(2048, 65537); err != nil { // loads the table
+			return nil, err
+		}
+		rsaMu.Lock()
+		defer rsaMu.Unlock()
+		k, ok := rsaCache["shape:"+strings.TrimPrefix(m.Class, "rsa:")]
+		if !ok {
+			return nil, fmt.Errorf("keyfactory: no RSA shape %q", m.Class)
+		}
+		return k, nil
+	}
+	return RSA(bits, e)
 }
 
 // GenerateRSA makes an RSA key with the given exact modulus size and (odd) public exponent. Go's rsa.GenerateKey
